@@ -368,7 +368,7 @@ def run_case(case):
     try:
         prog_ = case["prog"]
         if REAL and case.get("prove") == 2:
-            k_ = len(prog_) // 2
+            k_ = case.get("prove_at", len(prog_) // 2)
             prog_ = prog_[:k_] + [["_prove"]] + prog_[k_:]
         run_stmts(prog_, st["regs"], case["ins"], outs, st)
     except (AssertionError, ValueError, ZeroDivisionError, TypeError, RuntimeError, NotImplementedError, IndexError,
